@@ -58,7 +58,9 @@ impl<Error: Send + 'static> DecodeScheduler<Error> {
 			.expect("The frame producer shouldn't be full because we just created it");
 		let sample_rate = decoder.sample_rate();
 		let num_frames = if let Some((start, end)) = slice {
-			end - start
+			// a slice can't extend past the end of the audio, and a slice
+			// that ends before it starts is empty
+			end.min(decoder.num_frames()).saturating_sub(start)
 		} else {
 			decoder.num_frames()
 		};
@@ -155,7 +157,7 @@ impl<Error: Send + 'static> DecodeScheduler<Error> {
 	fn frame_at_index(&mut self, index: usize) -> Result<Frame, Error> {
 		let start = self.slice.map(|(start, _)| start).unwrap_or(0);
 		let end = self.slice.map(|(_, end)| end).unwrap_or(self.num_frames);
-		if index >= end - start {
+		if index >= end.saturating_sub(start) || index >= self.num_frames {
 			return Ok(Frame::ZERO);
 		}
 		let index = start + index;
